@@ -87,6 +87,14 @@ def run(ctx):
         ok = bool(st_calls) and all(any(o.kind in ("place", "param") for o in origins(ep, c.args[-1])) and "bool" == ep.locals[op_local(c.args[-1])]["ty"] for c in st_calls if op_local(c.args[-1]) is not None)
         srcs = [{tuple(o.proj) for o in origins(ep, c.args[-1]) if o.kind in ("place", "param")} for c in st_calls]
         r2.check(ok and len({frozenset(s_) for s_ in srcs}) == 1, "entrypoint-forwards-flag", "every startup path receives the same admin_only parameter", "startup calls do not all receive client_entrypoint's admin_only parameter")
+    from common import admin_only_gate
+    gok, gwhy = admin_only_gate(F)
+    if gok is None:
+        r2.missing(gwhy)
+    else:
+        r2.check(gok, "gate-before-every-login", "in Client::startup every way to AuthenticationOk crosses admin == true or admin_only == false, whatever the authentication method of the user",
+                 "a non-admin client can be logged in while admin_only is set (after SIGINT / SHUTDOWN): it never hears the shutdown broadcast (sent before it subscribed), keeps starting transactions, "
+                 "holds total_clients above 0 until shutdown_timeout and is cut off there", "", gwhy)
     # ---------------- R3 drain accounting
     r3 = ctx.rule("C17-R3", "client_entrypoint reports +1 before and -1 after every Client::handle of a non-admin client (both guarded by the same immutable is_admin())", floor=8)
     if ep:
@@ -180,7 +188,8 @@ def run(ctx):
                 tc = m.locals_named("total_clients")
                 writes_total = tc and any(d_[1] in reg for d_ in m.defs().get(tc[0], []))
                 if writes_total:
-                    snd = [c for c in m.calls("re:^tokio::sync::mpsc::bounded::Sender::send$") if c.block in reg]
+                    # signalling the exit channel (awaited or not) or leaving the loop directly both end the process
+                    snd = [c for c in m.calls("re:^tokio::sync::mpsc::bounded::Sender::(send|try_send)$") if c.block in reg] or exits
                     eqz = False
                     for sw2 in msw:
                         if sw2.block in reg and sw2.is_bool():
@@ -197,3 +206,26 @@ def run(ctx):
         k = sd.calls("re:^nix::sys::signal::kill$")
         ok = bool(k) and any(o.kind == "call" and o.call.name.endswith("process::id") for o in origins(sd, k[0].args[0], taint=True)) and any(o.kind == "agg" and o.extra.get("variant") == "SIGINT" for o in origins(sd, k[0].args[1], taint=True))
         r4.check(ok, "admin-shutdown=SIGINT", "admin SHUTDOWN raises SIGINT on the pooler's own pid", "admin SHUTDOWN no longer raises SIGINT on the own pid")
+
+    # ---------------- R5 the loop that decides the exit must itself stay live
+    r5 = ctx.rule("C17-R5", "main's loop never waits for room in a channel that only the loop itself drains (a full channel would stop the loop for good: no exit when the last client leaves, none at shutdown_timeout)", floor=2)
+    if m:
+        def chan(op):
+            return {o.call.block for o in origins(m, op, taint=True) if o.kind == "call" and o.call.name.endswith("mpsc::bounded::channel")}
+        own = {}
+        for c in m.calls("re:^tokio::sync::mpsc::bounded::Receiver::recv$"):
+            for ch in chan(c.args[0]):
+                own[ch] = c
+        r5.check(len(own) == 2, "own-channels", "the loop is the receiver of the drain and the exit channel", "main receives from %d channels (2 expected: drain, exit)" % len(own))
+        n = 0
+        for c in m.calls("re:^tokio::sync::mpsc::bounded::Sender::(send|send_timeout|reserve|reserve_owned|send_many)$"):
+            chs = chan(c.args[0]) & set(own)
+            if not chs:
+                continue
+            n += 1
+            vis = set()
+            origins(m, c.args[0], visited=vis, taint=True)
+            names = sorted({nm for l in vis for nm in m.varnames.get(l if isinstance(l, int) else l[0] if isinstance(l, tuple) else -1, ())})
+            cap = [const_int(m.blocks[ch]["term"]["args"][0]["op"] if "op" in m.blocks[ch]["term"]["args"][0] else m.blocks[ch]["term"]["args"][0]) for ch in chs]
+            r5.fail("self-send:%s" % ("/".join(names) or "?"), "the loop awaits `%s.send(..)` although it is the only receiver of that channel (capacity %s): once the channel is full the loop blocks in this arm forever and the process neither exits with the last client nor at shutdown_timeout" % ("/".join(names) or "sender", cap), c.where())
+        r5.check(True, "scan", "every awaited send of main's loop goes to a channel somebody else drains (%d self-sends)" % n, "")
